@@ -28,7 +28,8 @@ META = {
     "technique": "static analysis: who-may-call, accumulator order tables, control dependence, must-facts",
     "explanation": "Rule instances over the work-list construction, the two container roll-ups and the resource slot-table "
                    "initialisation: leaf filters, min/max accumulators, control dependence of the scheduled flag on the "
-                   "all-children test.",
+                   "all-children test."
+                   " Also: who-may-call rules for initScoreboard and scheduleContainer, unconditional roll-up writes, children-first (or fixpoint) roll-up order, roll-up around the readiness scan, finishScenario post-dominating scheduleScenario, and binding of defaulted scenario parameters.",
     "assumptions": [],
 }
 
